@@ -28,7 +28,6 @@ Fixpoint assoc_ge {V} (e : geffect) (l : list (geffect * V)) : option V :=
 Definition clear_code (e : effect) : option N := assoc_ge (GEff e) gen_clear.   (* EFFECT_CLEAR_DICT[e].value *)
 
 (* ---------- AnsiSetting ---------- *)
-Definition is_final (c : char) : bool := (64 <=? c) && (c <=? 126).
 Definition valid (t : str) : bool := negb (existsb is_final t).
 
 Inductive item := IInt (z : Z) | IStr (s : str).
